@@ -153,6 +153,60 @@ func main() {
 				}
 			}
 		}
+		// storm: when some type fails to reflect, every call on it registers and takes out
+		// again its placeholders; many goroutines repeat such calls (and calls on the other
+		// types) on one fresh codec, so that any window in which a failed build's leftovers
+		// are visible is hit sooner or later
+		bad := false
+		for _, i := range ms {
+			if !u.Good(i) {
+				bad = true
+			}
+		}
+		if bad {
+			solo := map[call]outcome{}
+			for _, i := range ms {
+				for kind := 1; kind <= 3; kind++ {
+					solo[call{kind, i}] = doCall(j5codec.NewCodec(), b, encoded, call{kind, i})
+				}
+			}
+			storm := j5codec.NewCodec()
+			const ngs, iters = 8, 120
+			type miss struct {
+				g, it int
+				c     call
+				got   outcome
+			}
+			misses := make([][]miss, ngs)
+			gate := make(chan struct{})
+			var wg sync.WaitGroup
+			for g := 0; g < ngs; g++ {
+				g := g
+				wg.Add(1)
+				go func() {
+					defer wg.Done()
+					<-gate
+					for it := 0; it < iters; it++ {
+						c := call{1 + (g+it)%3, ms[(g*7+it)%len(ms)]}
+						o := doCall(storm, b, encoded, c)
+						if !o.same(solo[c]) && len(misses[g]) < 3 {
+							misses[g] = append(misses[g], miss{g, it, c, o})
+						}
+					}
+				}()
+			}
+			close(gate)
+			wg.Wait()
+			total += ngs * iters
+			for _, ml := range misses {
+				for _, m := range ml {
+					_ = enc.Encode(map[string]any{"fail": map[string]any{
+						"round": k, "mode": "storm", "shape": why, "universe": u, "goroutines": ngs, "iterations": iters,
+						"goroutine": m.g, "iteration": m.it, "call": m.c, "got": m.got, "want": solo[m.c],
+					}})
+				}
+			}
+		}
 	}
 	_ = enc.Encode(map[string]any{"end": *rounds, "calls": total})
 }
